@@ -5,7 +5,10 @@ cd "$W" || exit 9
 git checkout -q -- src
 PYTHONPATH=$W/src TZ=UTC timeout 120 /venv/bin/python demo_$I.py >/dev/null 2>&1 || { echo "demo fails on clean tree"; exit 1; }
 git apply seed_$I.diff || { echo "no apply"; exit 1; }
-T=$(/venv/bin/python -m pytest -q -p no:cacheprovider 2>&1 | tail -1)
+# /venv has an editable install pointing at /repo/src: put the worktree's sources first, and check that they are used
+WHERE=$(PYTHONPATH=$W/src /venv/bin/python -c "import diameter; print(diameter.__file__)")
+case "$WHERE" in "$W"/src/*) ;; *) echo "tests would not import the worktree ($WHERE)"; git checkout -q -- src; exit 1;; esac
+T=$(PYTHONPATH=$W/src /venv/bin/python -m pytest -q -p no:cacheprovider 2>&1 | tail -1)
 PYTHONPATH=$W/src TZ=UTC timeout 120 /venv/bin/python demo_$I.py >/dev/null 2>&1; D=$?
 git checkout -q -- src
 case "$T" in *"157 passed"*) ;; *) echo "tests changed: $T"; exit 1;; esac
